@@ -2,10 +2,10 @@ package main
 
 import (
 	"fmt"
-	"os"
 	"go/ast"
 	"go/token"
 	"go/types"
+	"os"
 	"sort"
 	"strings"
 
@@ -232,18 +232,18 @@ func exhaustiveSwitchAround(L *Loaded, fi *FuncInfo, stack []ast.Node, call *ast
 // ---------------- R3.2 ----------------
 
 var c03AssertTable = map[string]string{
-	"parser.(*parser).alias|alias.(*ast.StructAlias)":                "complement of a comma-ok test for *ast.FuncAlias over the closed implementer set {FuncAlias, StructAlias} of ast.Alias",
-	"parser.(*parser).alias|structType.(*ddptypes.StructType)":       "operand is stralias.Struct.Type or the non-nil result of GetInstantiatedStructType (a *StructType); a nil instantiation is impossible after checkAlias succeeded",
-	"parser.(*parser).checkAlias|structDecl.Type.(*ddptypes.GenericStructType)": "guarded by ast.IsGeneric(structDecl), whose body is exactly this comma-ok test",
+	"parser.(*parser).alias|alias.(*ast.StructAlias)":                                                              "complement of a comma-ok test for *ast.FuncAlias over the closed implementer set {FuncAlias, StructAlias} of ast.Alias",
+	"parser.(*parser).alias|structType.(*ddptypes.StructType)":                                                     "operand is stralias.Struct.Type or the non-nil result of GetInstantiatedStructType (a *StructType); a nil instantiation is impossible after checkAlias succeeded",
+	"parser.(*parser).checkAlias|structDecl.Type.(*ddptypes.GenericStructType)":                                    "guarded by ast.IsGeneric(structDecl), whose body is exactly this comma-ok test",
 	"parser.(*parser).fillAndVerifyGenericStructInstantiationParams|structDecl.Type.(*ddptypes.GenericStructType)": "only called from checkAlias under ast.IsGeneric(structDecl)",
-	"ddptypes.(ParameterType).String|paramType.Type.(PrimitiveType)": "inside a String() method that is only reached through fmt verbs, which recover panics of String methods (prints %!v(PANIC=...)): influences a message, not a crash",
-	"parser.(*parser).constDeclaration|expr.(ast.Literal)":           "one reaching definition is a *ast.ListLit, the other is dominated by isLiteral(expr)",
-	"parser.(*parser).structDeclaration|structType.(*ddptypes.StructType)": "operand is the &ddptypes.StructType{} literal assigned a few lines above",
-	"annotators.(*ConstFuncParamAnnotator).VisitFuncDecl|param.(*ast.VarDecl)": "function parameters are inserted into the body's symbol table as *ast.VarDecl by parseFunctionBody",
-	"annotators.(*ConstFuncParamAnnotator).VisitFuncCall|attachement.(ConstFuncParamMeta)": "only one MetadataKind exists and GetMetadataByKind filters by it",
-	"annotators.(*ConstFuncParamAnnotator).overwriteAttachement|att.(ConstFuncParamMeta)":  "only one MetadataKind exists and GetMetadataByKind filters by it",
-	"ast.toInterfaceSlice|any(slice[i]).(U)":                          "generic widening helper: every instantiation has T assignable to U",
-	"parser.toInterfaceSlice|any(slice[i]).(U)":                       "generic widening helper: every instantiation has T assignable to U (the narrowing one, Declaration→*VarDecl, follows filterSlice(isVarDecl))",
+	"ddptypes.(ParameterType).String|paramType.Type.(PrimitiveType)":                                               "inside a String() method that is only reached through fmt verbs, which recover panics of String methods (prints %!v(PANIC=...)): influences a message, not a crash",
+	"parser.(*parser).constDeclaration|expr.(ast.Literal)":                                                         "one reaching definition is a *ast.ListLit, the other is dominated by isLiteral(expr)",
+	"parser.(*parser).structDeclaration|structType.(*ddptypes.StructType)":                                         "operand is the &ddptypes.StructType{} literal assigned a few lines above",
+	"annotators.(*ConstFuncParamAnnotator).VisitFuncDecl|param.(*ast.VarDecl)":                                     "function parameters are inserted into the body's symbol table as *ast.VarDecl by parseFunctionBody",
+	"annotators.(*ConstFuncParamAnnotator).VisitFuncCall|attachement.(ConstFuncParamMeta)":                         "only one MetadataKind exists and GetMetadataByKind filters by it",
+	"annotators.(*ConstFuncParamAnnotator).overwriteAttachement|att.(ConstFuncParamMeta)":                          "only one MetadataKind exists and GetMetadataByKind filters by it",
+	"ast.toInterfaceSlice|any(slice[i]).(U)":                                                                       "generic widening helper: every instantiation has T assignable to U",
+	"parser.toInterfaceSlice|any(slice[i]).(U)":                                                                    "generic widening helper: every instantiation has T assignable to U (the narrowing one, Declaration→*VarDecl, follows filterSlice(isVarDecl))",
 }
 
 func checkAssertions(c *Check) {
@@ -385,10 +385,10 @@ func derefNamed(t types.Type) (*types.Named, bool) {
 const bAdv = 1
 
 type advSummary struct {
-	must     bool // every return path advanced at least once (unless at EOF)
-	onTrue   bool // returns bool; a true result implies it advanced
+	must      bool // every return path advanced at least once (unless at EOF)
+	onTrue    bool // returns bool; a true result implies it advanced
 	needsArgs bool // summary assumes a non-empty variadic argument list
-	computed bool
+	computed  bool
 }
 
 func checkLoopProgress(c *Check) {
@@ -782,42 +782,42 @@ func endsInNoReturn(L *Loaded, fi *FuncInfo, b *cfg.Block) bool {
 // ---------------- R3.5 ----------------
 
 var c03SCCAnchors = map[string]string{
-	"ddptypes.GetUnderlying":              "structural recursion on type terms (finite trees: a Kombination mentions only previously declared types)",
-	"ddptypes.TrueUnderlying":             "structural recursion on type terms",
-	"ddptypes.getTrueListUnderlying":      "structural recursion on type terms",
-	"ddptypes.ListTrueUnderlying":         "structural recursion on type terms",
-	"ddptypes.GetNestedListElementType":   "structural recursion on type terms",
-	"ddptypes.CastDeeplyNestedGenerics":   "structural recursion on type terms",
-	"ddptypes.StructurallyEqual":          "structural recursion on type terms",
-	"ddptypes.GetInstantiatedStructType":  "structural recursion on type terms (instantiation of field types)",
-	"ddptypes.GetInstantiatedType":        "structural recursion on type terms",
-	"ddptypes.UnifyGenericType":           "structural recursion on type terms",
-	"ddptypes.(ListType).String":          "structural recursion on type terms",
-	"ddptypes.(*StructType).String":       "structural recursion on type terms",
-	"ddptypes.(*InstantiatedGenericType).Gender": "structural recursion on type terms",
-	"ddptypes.(*InstantiatedGenericType).String": "structural recursion on type terms",
-	"ddptypes.(ParameterType).String":     "structural recursion on type terms",
-	"ast.(*Indexing).GetRange":            "structural recursion on AST nodes",
-	"ast.(*FieldAccess).GetRange":         "structural recursion on AST nodes",
-	"ast.(*CastExpr).Token":               "structural recursion on AST nodes",
-	"ast.(*CastAssigneable).Token":        "structural recursion on AST nodes",
-	"ast.(*Indexing).Token":               "structural recursion on AST nodes",
-	"ast.(*FieldAccess).Token":            "structural recursion on AST nodes",
-	"annotators.doesReferenceVarMutable":  "structural recursion on AST nodes",
-	"typechecker.isAssignable":            "structural recursion on AST nodes",
-	"typechecker.isBinaryExprAssignable":  "structural recursion on AST nodes",
-	"typechecker.IsPublicType":            "structural recursion on type terms",
-	"ast.(*BasicSymbolTable).LookupDecl":  "walk up the finite scope chain",
-	"ast.(*BasicSymbolTable).LookupType":  "walk up the finite scope chain",
-	"ast.iterateModuleImportsRec":         "module DAG with a visited set",
-	"ddperror.printIndentedError":         "finite tree of wrapped errors",
-	"parser.(*parser).parseType":          "consumes '(' before recursing",
-	"parser.(*parser).parseReferenceType": "consumes '(' before recursing",
+	"ddptypes.GetUnderlying":                              "structural recursion on type terms (finite trees: a Kombination mentions only previously declared types)",
+	"ddptypes.TrueUnderlying":                             "structural recursion on type terms",
+	"ddptypes.getTrueListUnderlying":                      "structural recursion on type terms",
+	"ddptypes.ListTrueUnderlying":                         "structural recursion on type terms",
+	"ddptypes.GetNestedListElementType":                   "structural recursion on type terms",
+	"ddptypes.CastDeeplyNestedGenerics":                   "structural recursion on type terms",
+	"ddptypes.StructurallyEqual":                          "structural recursion on type terms",
+	"ddptypes.GetInstantiatedStructType":                  "structural recursion on type terms (instantiation of field types)",
+	"ddptypes.GetInstantiatedType":                        "structural recursion on type terms",
+	"ddptypes.UnifyGenericType":                           "structural recursion on type terms",
+	"ddptypes.(ListType).String":                          "structural recursion on type terms",
+	"ddptypes.(*StructType).String":                       "structural recursion on type terms",
+	"ddptypes.(*InstantiatedGenericType).Gender":          "structural recursion on type terms",
+	"ddptypes.(*InstantiatedGenericType).String":          "structural recursion on type terms",
+	"ddptypes.(ParameterType).String":                     "structural recursion on type terms",
+	"ast.(*Indexing).GetRange":                            "structural recursion on AST nodes",
+	"ast.(*FieldAccess).GetRange":                         "structural recursion on AST nodes",
+	"ast.(*CastExpr).Token":                               "structural recursion on AST nodes",
+	"ast.(*CastAssigneable).Token":                        "structural recursion on AST nodes",
+	"ast.(*Indexing).Token":                               "structural recursion on AST nodes",
+	"ast.(*FieldAccess).Token":                            "structural recursion on AST nodes",
+	"annotators.doesReferenceVarMutable":                  "structural recursion on AST nodes",
+	"typechecker.isAssignable":                            "structural recursion on AST nodes",
+	"typechecker.isBinaryExprAssignable":                  "structural recursion on AST nodes",
+	"typechecker.IsPublicType":                            "structural recursion on type terms",
+	"ast.(*BasicSymbolTable).LookupDecl":                  "walk up the finite scope chain",
+	"ast.(*BasicSymbolTable).LookupType":                  "walk up the finite scope chain",
+	"ast.iterateModuleImportsRec":                         "module DAG with a visited set",
+	"ddperror.printIndentedError":                         "finite tree of wrapped errors",
+	"parser.(*parser).parseType":                          "consumes '(' before recursing",
+	"parser.(*parser).parseReferenceType":                 "consumes '(' before recursing",
 	"annotators.(*ConstFuncParamAnnotator).VisitFuncDecl": "recurses only into instantiations, which are not generic",
-	"alias_trie.copyNode":                 "structural recursion on the trie",
-	"alias_trie.(*Trie).Search":           "structural recursion on the trie (searchImpl descends one level per call)",
-	"alias_trie.(*Trie).prettyPrintImpl":  "structural recursion on the trie",
-	"parser.(*parser).expression":         "the recursive-descent/visitor knot: terminates by token consumption (R3.4) plus the re-entry edges below",
+	"alias_trie.copyNode":                                 "structural recursion on the trie",
+	"alias_trie.(*Trie).Search":                           "structural recursion on the trie (searchImpl descends one level per call)",
+	"alias_trie.(*Trie).prettyPrintImpl":                  "structural recursion on the trie",
+	"parser.(*parser).expression":                         "the recursive-descent/visitor knot: terminates by token consumption (R3.4) plus the re-entry edges below",
 }
 
 func checkRecursion(c *Check) {
@@ -977,11 +977,11 @@ func checkRecursion(c *Check) {
 	pp := L.ByRel["src/parser"]
 	info := pp.TypesInfo
 	reentry := map[string]string{
-		"parser.newParser":                              "constructor used by Parse",
-		"parser.(*parser).resolveModuleImport|Parse":    "memo: the module map gets a nil placeholder before the nested Parse; a hit on the placeholder reports the cycle",
-		"parser.(*parser).InstantiateGenericFunction":   "memo: the instantiation is registered before its body is parsed (checked below)",
-		"parser.(*parser).alias":                        "argument sub-parser over tokens[exprStart:cur]; no memo (see finding)",
-		"parser.(*parser).checkAlias":                   "argument sub-parser over the tokens of one alias argument; no memo (see finding)",
+		"parser.newParser":                            "constructor used by Parse",
+		"parser.(*parser).resolveModuleImport|Parse":  "memo: the module map gets a nil placeholder before the nested Parse; a hit on the placeholder reports the cycle",
+		"parser.(*parser).InstantiateGenericFunction": "memo: the instantiation is registered before its body is parsed (checked below)",
+		"parser.(*parser).alias":                      "argument sub-parser over tokens[exprStart:cur]; no memo (see finding)",
+		"parser.(*parser).checkAlias":                 "argument sub-parser over the tokens of one alias argument; no memo (see finding)",
 	}
 	L.ForEachFunc([]string{"src/parser"}, func(fi *FuncInfo) {
 		q := L.QName(fi.Obj)
